@@ -10,6 +10,7 @@ argument types where a cast (`as u8`, …) is only the identity in range. The pr
 import TzVerif.Generated.Src
 import TzVerif.Model.DateTime
 import TzVerif.Model.Rule
+import TzVerif.Proofs.Calendar
 
 namespace TzVerif.Proofs.SrcEq
 open TzVerif TzVerif.Model TzVerif.Gen
@@ -20,71 +21,321 @@ def U32 (x : Int) : Prop := 0 ≤ x ∧ x ≤ 4294967295
 def I32 (x : Int) : Prop := -2147483648 ≤ x ∧ x ≤ 2147483647
 def I64 (x : Int) : Prop := -9223372036854775808 ≤ x ∧ x ≤ 9223372036854775807
 
+/-! ### casts, checked operations, indexing -/
+
+theorem wrap_u8_id (x : Int) (h : 0 ≤ x ∧ x ≤ 255) : Src.wrap_u8 x = x := by
+  unfold Src.wrap_u8 Src.wrapU
+  rw [show ((2:Int)^8) = 256 from by decide]; omega
+
+theorem wrap_u16_id (x : Int) (h : 0 ≤ x ∧ x ≤ 65535) : Src.wrap_u16 x = x := by
+  unfold Src.wrap_u16 Src.wrapU
+  rw [show ((2:Int)^16) = 65536 from by decide]; omega
+
+theorem wrap_u32_id (x : Int) (h : 0 ≤ x ∧ x ≤ 4294967295) : Src.wrap_u32 x = x := by
+  unfold Src.wrap_u32 Src.wrapU
+  rw [show ((2:Int)^32) = 4294967296 from by decide]; omega
+
+theorem wrap_usize_id (x : Int) (h : 0 ≤ x ∧ x ≤ 18446744073709551615) : Src.wrap_usize x = x := by
+  unfold Src.wrap_usize Src.wrapU
+  rw [show ((2:Int)^64) = 18446744073709551616 from by decide]; omega
+
+theorem wrap_i32_id (x : Int) (h : -2147483648 ≤ x ∧ x ≤ 2147483647) : Src.wrap_i32 x = x := by
+  unfold Src.wrap_i32 Src.wrapS
+  simp only [show ((2:Int)^32) = 4294967296 from by decide]
+  split <;> omega
+
+theorem wrap_i64_id (x : Int) (h : -9223372036854775808 ≤ x ∧ x ≤ 9223372036854775807) : Src.wrap_i64 x = x := by
+  unfold Src.wrap_i64 Src.wrapS
+  simp only [show ((2:Int)^64) = 18446744073709551616 from by decide]
+  split <;> omega
+
+theorem checked_i64_eq (x : Int) : Src.checked_i64 x = if i64Min ≤ x ∧ x ≤ i64Max then some x else none := by
+  unfold Src.checked_i64 Src.inS
+  rw [show ((2:Int)^(64-1)) = 9223372036854775808 from by decide]
+  by_cases h : i64Min ≤ x ∧ x ≤ i64Max
+  · rw [if_pos h, if_pos]
+    simp only [i64Min, i64Max] at h
+    simp only [decide_eq_true_eq]; omega
+  · rw [if_neg h, if_neg]
+    simp only [i64Min, i64Max] at h
+    simp only [decide_eq_true_eq]; omega
+
+theorem idx_eq (l : List Int) (i : Int) : Src.idx l i = tbl l i := rfl
+
 theorem min_eq (a b : Int) : Src.min a b = minI a b := by
-  sorry
+  unfold Src.min Src.cmp minI
+  by_cases h1 : a < b
+  · simp [h1]; omega
+  · by_cases h2 : a = b
+    · simp [h2]
+    · simp [h1, h2]; omega
 
 theorem try_into_i32_eq (v : Int) : Src.try_into_i32 v = tryIntoI32 v := by
-  sorry
+  unfold Src.try_into_i32 tryIntoI32 i32Min i32Max
+  by_cases h : -2147483648 ≤ v ∧ v ≤ 2147483647
+  · simp [h, wrap_i32_id v h]
+  · simp [h]
 
 theorem try_into_i64_eq (v : Int) : Src.try_into_i64 v = tryIntoI64 v := by
-  sorry
+  unfold Src.try_into_i64 tryIntoI64 i64Min i64Max
+  by_cases h : -9223372036854775808 ≤ v ∧ v ≤ 9223372036854775807
+  · simp [h, wrap_i64_id v h]
+  · simp [h]
 
 theorem is_leap_year_eq (y : Int) : Src.is_leap_year y = isLeapYear y := by
-  sorry
+  unfold Src.is_leap_year isLeapYear
+  simp [bne, BEq.beq]
+
 
 theorem days_since_unix_epoch_eq (y m d : Int) : Src.days_since_unix_epoch y m d = daysSinceUnixEpoch y m d := by
-  sorry
+  unfold Src.days_since_unix_epoch daysSinceUnixEpoch
+  simp only [is_leap_year_eq, idx_eq]
+  by_cases hy : y ≥ 1970 <;> by_cases hl : isLeapYear y = true <;> by_cases hm : m < 3 <;>
+    simp [hy, hl, hm] <;> omega
 
 theorem unix_time_eq (y mo d h mi s : Int) : Src.unix_time y mo d h mi s = unixTime y mo d h mi s := by
-  sorry
+  unfold Src.unix_time unixTime
+  simp only [days_since_unix_epoch_eq]
 
 theorem week_day_eq (y m d : Int) : Src.week_day y m d = weekDay y m d := by
-  sorry
+  unfold Src.week_day weekDay
+  simp only [days_since_unix_epoch_eq, DAYS_PER_WEEK]
+  apply wrap_u8_id; omega
+
+
+theorem tbl_cumul_range (m : Int) (hm : 1 ≤ m ∧ m ≤ 12) :
+    0 ≤ tbl CUMUL_DAYS_IN_MONTHS_NORMAL_YEAR (m - 1) ∧ tbl CUMUL_DAYS_IN_MONTHS_NORMAL_YEAR (m - 1) ≤ 334 := by
+  have : m = 1 ∨ m = 2 ∨ m = 3 ∨ m = 4 ∨ m = 5 ∨ m = 6 ∨ m = 7 ∨ m = 8 ∨ m = 9 ∨ m = 10 ∨ m = 11 ∨ m = 12 := by omega
+  rcases this with h | h | h | h | h | h | h | h | h | h | h | h <;> subst h <;> decide
 
 /-- `as u16` is the identity for a day of the year: months 1..12, days of the Rust type's range -/
 theorem year_day_eq (y m d : Int) (hm : 1 ≤ m ∧ m ≤ 12) (hd : 1 ≤ d ∧ d ≤ 255) : Src.year_day y m d = yearDay y m d := by
-  sorry
+  unfold Src.year_day yearDay
+  simp only [is_leap_year_eq, idx_eq]
+  have hr := tbl_cumul_range m hm
+  have hl : ∀ b : Bool, 0 ≤ (if b = true then (1:Int) else 0) ∧ (if b = true then (1:Int) else 0) ≤ 1 := by
+    intro b; cases b <;> simp
+  have e : (decide (m ≥ 3) && isLeapYear y) = (decide (m ≥ 3) && isLeapYear y) := rfl
+  have hl' := hl (decide (m ≥ 3) && isLeapYear y)
+  apply wrap_u16_id
+  omega
 
-theorem nanoseconds_since_unix_epoch_eq (u ns : Int) : Src.nanoseconds_since_unix_epoch u ns = nanosecondsSinceUnixEpoch u ns := by
-  sorry
+theorem nanoseconds_since_unix_epoch_eq (u ns : Int) : Src.nanoseconds_since_unix_epoch u ns = nanosecondsSinceUnixEpoch u ns := rfl
 
 theorem total_nanoseconds_to_timespec_eq (t : Int) : Src.total_nanoseconds_to_timespec t = totalNanosecondsToTimespec t := by
-  sorry
+  unfold Src.total_nanoseconds_to_timespec totalNanosecondsToTimespec
+  rw [try_into_i64_eq]
+  have : Src.wrap_u32 (t % NANOSECONDS_PER_SECOND) = t % NANOSECONDS_PER_SECOND := by
+    apply wrap_u32_id; simp only [NANOSECONDS_PER_SECOND]; omega
+  rw [this]
+  cases tryIntoI64 (t / NANOSECONDS_PER_SECOND) <;> rfl
 
 theorem check_date_time_inputs_eq (y mo d h mi s ns : Int) :
     Src.check_date_time_inputs y mo d h mi s ns = checkDateTimeInputs y mo d h mi s ns := by
-  sorry
+  unfold Src.check_date_time_inputs checkDateTimeInputs
+  simp only [is_leap_year_eq, idx_eq, decide_eq_true_eq]
 
 theorem check_unix_time_eq (t : Int) : Src.UtcDateTime.check_unix_time t = checkUnixTime t := by
-  sorry
+  unfold Src.UtcDateTime.check_unix_time checkUnixTime
+  simp only [Bool.and_eq_true, decide_eq_true_eq]
 
 theorem utc_new_eq (y mo d h mi s ns : Int) : Src.UtcDateTime.new y mo d h mi s ns = UtcDateTime.new y mo d h mi s ns := by
-  sorry
+  unfold Src.UtcDateTime.new UtcDateTime.new
+  rw [check_date_time_inputs_eq]
+  by_cases hc : y = i32Max ∧ mo = 12 ∧ d = 31 ∧ h = 23 ∧ mi = 59 ∧ s = 60
+  · rw [if_pos hc, if_pos]
+    simp only [i32Max] at hc
+    simp only [Bool.and_eq_true, decide_eq_true_eq, and_assoc]; exact hc
+  · rw [if_neg hc, if_neg]
+    · cases checkDateTimeInputs y mo d h mi s ns <;> rfl
+    · simp only [i32Max] at hc
+      simp only [Bool.and_eq_true, decide_eq_true_eq, and_assoc]; exact hc
+
+
+theorem loopS_monthLoop (L : List Int) (f : Int × Int → Src.Step (Int × Int) Empty)
+    (hf : ∀ r m, f (r, m) =
+      if decide (m < (L.length : Int)) then
+        (if decide (r < Src.idx L m) then Src.Step.stop (r, m) else Src.Step.next (r - Src.idx L m, m + 1))
+      else Src.Step.stop (r, m)) :
+    ∀ (n k : Nat) (r : Int) (fuel : Nat), L.length - k = n → k ≤ L.length → fuel ≥ n + 1 →
+      Src.loopS fuel f (r, (k : Int)) = ((monthLoop (L.drop k) k r).2, (monthLoop (L.drop k) k r).1) := by
+  intro n
+  induction n with
+  | zero =>
+    intro k r fuel hn hk hfu
+    have hk' : k = L.length := by omega
+    obtain ⟨fuel', rfl⟩ : ∃ f', fuel = f' + 1 := ⟨fuel - 1, by omega⟩
+    have hd : L.drop k = [] := by rw [hk']; exact List.drop_length
+    rw [hd]
+    simp only [Src.loopS, monthLoop, hf]
+    have : ¬ ((k : Int) < (L.length : Int)) := by omega
+    simp [this]
+  | succ n ih =>
+    intro k r fuel hn hk hfu
+    have hk' : k < L.length := by omega
+    obtain ⟨fuel', rfl⟩ : ∃ f', fuel = f' + 1 := ⟨fuel - 1, by omega⟩
+    have hd : L.drop k = L[k] :: L.drop (k + 1) := List.drop_eq_getElem_cons hk'
+    have hi : Src.idx L (k : Int) = L[k] := by
+      unfold Src.idx
+      simp [List.getD_eq_getElem?_getD, hk']
+    rw [hd]
+    simp only [Src.loopS, monthLoop, hf, hi]
+    have : ((k : Int) < (L.length : Int)) := by omega
+    simp only [this, decide_true, if_true]
+    by_cases hr : r < L[k]
+    · simp [hr]
+    · simp only [hr, decide_false, if_false]
+      have := ih (k + 1) (r - L[k]) fuel' (by omega) (by omega) (by omega)
+      rw [Int.natCast_add] at this
+      exact this
+
+
+/-- the cast layer of `from_timespec` on top of the model result -/
+def castFields (c : UtcDateTime) : UtcDateTime :=
+  { year := c.year, month := Src.wrap_u8 c.month, monthDay := Src.wrap_u8 c.monthDay, hour := Src.wrap_u8 c.hour,
+    minute := Src.wrap_u8 c.minute, second := Src.wrap_u8 c.second, nanoseconds := c.nanoseconds }
+
+theorem month_loop_eq (r : Int) (f : Int × Int → Src.Step (Int × Int) Empty)
+    (hf : ∀ r m, f (r, m) =
+      if decide (m < (DAY_IN_MONTHS_LEAP_YEAR_FROM_MARCH.length : Int)) then
+        (if decide (r < Src.idx DAY_IN_MONTHS_LEAP_YEAR_FROM_MARCH m) then Src.Step.stop (r, m)
+         else Src.Step.next (r - Src.idx DAY_IN_MONTHS_LEAP_YEAR_FROM_MARCH m, m + 1))
+      else Src.Step.stop (r, m)) :
+    Src.loopS (Int.toNat ((DAY_IN_MONTHS_LEAP_YEAR_FROM_MARCH.length : Int) + 1)) f (r, 0) =
+      ((monthLoop DAY_IN_MONTHS_LEAP_YEAR_FROM_MARCH 0 r).2, (monthLoop DAY_IN_MONTHS_LEAP_YEAR_FROM_MARCH 0 r).1) := by
+  have := loopS_monthLoop DAY_IN_MONTHS_LEAP_YEAR_FROM_MARCH f hf 12 0 r
+    (Int.toNat ((DAY_IN_MONTHS_LEAP_YEAR_FROM_MARCH.length : Int) + 1)) (by decide) (by decide) (by decide)
+  simpa using this
+
+theorem pair_ite {α β : Type} (c : Prop) [Decidable c] (a a' : α) (b b' : β) :
+    (if c then (a, b) else (a', b')) = (if c then a else a', if c then b else b') := by
+  split <;> rfl
+
+theorem wrap_usize_mpy : Src.wrap_usize MONTHS_PER_YEAR = MONTHS_PER_YEAR := by decide
+
+theorem utc_from_timespec_aux (t ns : Int) : Src.UtcDateTime.from_timespec t ns =
+    match UtcDateTime.fromTimespec t ns with
+    | .ok c => .ok (castFields c)
+    | .error e => .error e := by
+  unfold Src.UtcDateTime.from_timespec UtcDateTime.fromTimespec
+  rw [checked_i64_eq]
+  by_cases hr : i64Min ≤ t - UNIX_OFFSET_SECS ∧ t - UNIX_OFFSET_SECS ≤ i64Max
+  · simp only [if_pos hr, if_neg (not_not_intro hr)]
+    simp only [min_eq, try_into_i32_eq]
+    rw [month_loop_eq _ _ (fun r m => rfl)]
+    simp only [pair_ite, decide_eq_true_eq, wrap_usize_mpy]
+    split <;> rename_i h1 <;> rw [h1]
+    rfl
+  · simp only [if_neg hr, if_pos hr]
+
+
+theorem castFields_id (t ns : Int) (c : UtcDateTime) (h : UtcDateTime.fromTimespec t ns = .ok c) : castFields c = c := by
+  obtain ⟨⟨v1, v2, v3, v4⟩, a1, a2, a3, a4, a5, a6, -⟩ := fromTimespec_fields t ns c h
+  have := monthLen_le c.year c.month
+  unfold castFields
+  rw [wrap_u8_id _ (by omega), wrap_u8_id _ (by omega), wrap_u8_id _ (by omega), wrap_u8_id _ (by omega),
+    wrap_u8_id _ (by omega)]
 
 /-- the whole of `UtcDateTime::from_timespec`, loop and casts included (no hypothesis: the casts are the
     identity because of what the arithmetic before them guarantees) -/
 theorem utc_from_timespec_eq (t ns : Int) : Src.UtcDateTime.from_timespec t ns = UtcDateTime.fromTimespec t ns := by
-  sorry
+  rw [utc_from_timespec_aux]
+  cases h : UtcDateTime.fromTimespec t ns with
+  | error e => rfl
+  | ok c => simp only [castFields_id t ns c h]
 
 theorem utc_from_total_nanoseconds_eq (t : Int) : Src.UtcDateTime.from_total_nanoseconds t = UtcDateTime.fromTotalNanoseconds t := by
-  sorry
+  unfold Src.UtcDateTime.from_total_nanoseconds UtcDateTime.fromTotalNanoseconds
+  rw [total_nanoseconds_to_timespec_eq]
+  cases totalNanosecondsToTimespec t with
+  | error e => rfl
+  | ok p => obtain ⟨s, n⟩ := p; exact utc_from_timespec_eq s n
 
 theorem utc_unix_time_eq (c : UtcDateTime) : Src.UtcDateTime.unix_time c = c.unixTime := by
-  sorry
+  unfold Src.UtcDateTime.unix_time UtcDateTime.unixTime
+  rw [unix_time_eq]
 
 theorem dt_new_eq (y mo d h mi s ns : Int) (l : LocalTimeType) : Src.DateTime.new y mo d h mi s ns l = DateTime.new y mo d h mi s ns l := by
-  sorry
+  unfold Src.DateTime.new DateTime.new
+  rw [check_date_time_inputs_eq]
+  cases checkDateTimeInputs y mo d h mi s ns with
+  | error e => rfl
+  | ok u =>
+    simp only [check_unix_time_eq, unix_time_eq]
+    cases checkUnixTime (unixTime y mo d h mi s - l.utOffset) <;> rfl
 
 theorem dt_from_timespec_and_local_eq (u ns : Int) (l : LocalTimeType) :
     Src.DateTime.from_timespec_and_local u ns l = DateTime.fromTimespecAndLocal u ns l := by
-  sorry
+  unfold Src.DateTime.from_timespec_and_local DateTime.fromTimespecAndLocal
+  rw [checked_i64_eq]
+  by_cases hr : i64Min ≤ u + l.utOffset ∧ u + l.utOffset ≤ i64Max
+  · simp only [if_pos hr, if_neg (not_not_intro hr), utc_from_timespec_eq]
+    cases UtcDateTime.fromTimespec (u + l.utOffset) ns <;> rfl
+  · simp only [if_neg hr, if_pos hr]
+
 
 /-- the binary search macro instantiated at `i64`: `Ok(i)` / `Err(i)` of the source are `.found i` / `.notFound i` -/
 def bsOfExcept : Except Int Int → BS
   | .ok i => .found i.toNat
   | .error i => .notFound i.toNat
 
+/-- what `binary_search_i64` does with the result of its loop -/
+def bsOut : (Int × Int × Int) ⊕ Except Int Int → Except Int Int
+  | .inr r => r
+  | .inl (left, _, _) => .error left
+
+theorem bs_loop (l : List Int) (x : Int) (f : Int × Int × Int → Src.Step (Int × Int × Int) (Except Int Int))
+    (hf : ∀ a b s, f (a, b, s) =
+      if decide (a < b) then
+        (if decide (Src.copied (Src.idx l (a + Int.tdiv s 2)) < x) then
+          Src.Step.next (a + Int.tdiv s 2 + 1, b, b - (a + Int.tdiv s 2 + 1))
+        else if decide (Src.copied (Src.idx l (a + Int.tdiv s 2)) > x) then
+          Src.Step.next (a, a + Int.tdiv s 2, a + Int.tdiv s 2 - a)
+        else Src.Step.ret (Except.ok (a + Int.tdiv s 2)))
+      else Src.Step.stop (a, b, s)) :
+    ∀ (fuel left right : Nat) (a b s : Int), right - left + 1 ≤ fuel → a = left → b = right → s = b - a →
+      bsOfExcept (bsOut (Src.loopR fuel f (a, b, s))) = binarySearchLoop l x left right := by
+  intro fuel
+  induction fuel with
+  | zero => intro left right a b s h; omega
+  | succ fuel ih =>
+    intro left right a b s hfu ha hb hs
+    rw [binarySearchLoop]
+    simp only [Src.loopR, hf]
+    by_cases hlt : left < right
+    · have hab : a < b := by omega
+      have hs0 : 0 ≤ s := by omega
+      have hmid : a + Int.tdiv s 2 = ((left + (right - left) / 2 : Nat) : Int) := by
+        rw [Int.tdiv_eq_ediv_of_nonneg hs0]; omega
+      have hv : Src.copied (Src.idx l (a + Int.tdiv s 2)) = l.getD (left + (right - left) / 2) 0 := by
+        rw [hmid]; unfold Src.copied Src.idx; rw [Int.toNat_natCast]; rfl
+      rw [hv, hmid]
+      simp only [hab, hlt, decide_true, if_true, dite_true]
+      by_cases h1 : l.getD (left + (right - left) / 2) 0 < x
+      · simp only [h1, decide_true, if_true]
+        exact ih (left + (right - left) / 2 + 1) right _ _ _ (by omega) (by omega) hb rfl
+      · simp only [h1, decide_false, if_false]
+        by_cases h2 : l.getD (left + (right - left) / 2) 0 > x
+        · simp only [h2, decide_true, if_true]
+          exact ih left (left + (right - left) / 2) _ _ _ (by omega) ha rfl (by omega)
+        · simp only [h2, decide_false, Bool.false_eq_true, if_false, bsOut, bsOfExcept, Int.toNat_natCast]
+    · have hab : ¬ a < b := by omega
+      rw [dif_neg hlt]
+      simp only [hab, decide_false, Bool.false_eq_true, if_false, bsOut, bsOfExcept]
+      rw [ha, Int.toNat_natCast]
+
 theorem binary_search_i64_eq (l : List Int) (x : Int) : bsOfExcept (Src.binary_search_i64 l x) = binarySearch l x := by
-  sorry
+  have h : Src.binary_search_i64 l x = bsOut (Src.loopR (Int.toNat ((l.length : Int) + 1)) _ ((0 : Int), (l.length : Int), (l.length : Int))) := rfl
+  rw [h]
+  unfold binarySearch
+  refine bs_loop l x _ (fun a b s => ?_) _ 0 l.length _ _ _ (by omega) rfl rfl (by omega)
+  dsimp only
+  by_cases h0 : a < b
+  · by_cases h1 : Src.copied (Src.idx l (a + Int.tdiv s 2)) < x
+    · simp only [h0, h1, decide_true, if_true]
+    · by_cases h2 : Src.copied (Src.idx l (a + Int.tdiv s 2)) > x
+      · simp only [h0, h1, h2, decide_true, decide_false, if_true, if_false, Bool.false_eq_true]
+      · simp only [h0, h1, h2, decide_true, decide_false, if_true, if_false, Bool.false_eq_true]
+  · simp only [h0, decide_false, if_false, Bool.false_eq_true]
 
 end TzVerif.Proofs.SrcEq
